@@ -354,6 +354,15 @@ func SysFaultPart(run *report.Run, st *Setup, cases, injPerCase int, sides map[s
 			}
 			inj := fmt.Sprintf("inject=%s:error=%s:when=%s", c.kind.call, errno, when)
 			what := fmt.Sprintf("%s fails with %s at invocation %s of a thread", c.kind.call, errno, when)
+			// crash variant: the process is killed (SIGKILL) on entering that call - a crash point
+			// at a system call boundary, also between the chunks of one copy, that no hook marks
+			crashMode := sides["write"] && judge["followup"] && r.Chance(1, 5)
+			if crashMode {
+				errno = "SIGKILL"
+				when = fmt.Sprint(c.ord)
+				inj = fmt.Sprintf("inject=%s:signal=KILL:when=%s", c.kind.call, when)
+				what = fmt.Sprintf("SIGKILL on entering %s at invocation %s of a thread", c.kind.call, when)
+			}
 			if !restore() {
 				run.Infra("restore failed")
 				return
@@ -393,6 +402,17 @@ func SysFaultPart(run *report.Run, st *Setup, cases, injPerCase int, sides map[s
 			nhit := 0
 			for _, n := range hit {
 				nhit += n
+			}
+			if crashMode {
+				onOther, leadRun = false, false
+				hit = map[string]int{}
+				nhit = 0
+				if fobs.Res.Signaled {
+					hit["killed-at-a-system-call"] = 1
+					nhit = 1
+					fvs = nil // nothing to judge about a killed build itself
+					run.Count("sysfault_crash_at:"+c.kind.call, 1)
+				}
 			}
 			env.Logf("%s -> exit %d, %d call(s) failed: %v", what, fobs.Res.Exit, nhit, hitTexts)
 			if nhit == 0 {
